@@ -149,9 +149,10 @@ fn run_xyb(ctx: &Ctx, roundtrip: bool) {
         if px.is_empty() {
             return;
         }
+        let process = |px: &[[f32; 3]], kinds: &[usize], count: bool| {
         let n = px.len();
         let (w, h) = shape(n, a / chunk);
-        let x = match xyb_of(px.clone(), w, h) {
+        let x = match xyb_of(px.to_vec(), w, h) {
             Ok(x) => x,
             Err(e) => {
                 ev::violation(format!("{prop}|ctor"), e, J::Null);
@@ -177,8 +178,10 @@ fn run_xyb(ctx: &Ctx, roundtrip: bool) {
                 if opsin_mix(px64(p)).iter().any(|v| *v < 0.0) {
                     ncl += 1;
                 }
-                per_stratum[kinds[i]].fetch_add(1, Relaxed);
-                distinct.insert(hash_px(p));
+                if count {
+                    per_stratum[kinds[i]].fetch_add(1, Relaxed);
+                    distinct.insert(hash_px(p));
+                }
             }
         } else {
             let back = LinearRgb::from(x);
@@ -194,13 +197,42 @@ fn run_xyb(ctx: &Ctx, roundtrip: bool) {
                 for c in 0..3 {
                     loc.upd((got[c] as f64 - p[c] as f64).abs(), (p, c, got[c], p[c] as f64));
                 }
-                per_stratum[kinds[i]].fetch_add(1, Relaxed);
-                distinct.insert(hash_px(p));
+                if count {
+                    per_stratum[kinds[i]].fetch_add(1, Relaxed);
+                    distinct.insert(hash_px(p));
+                }
             }
         }
-        clamped.fetch_add(ncl, Relaxed);
+        if count {
+            clamped.fetch_add(ncl, Relaxed);
+        }
         checked.fetch_add(n as u64, Relaxed);
         worst.lock().unwrap().merge(&loc);
+        };
+        process(&px, &kinds, true);
+        // the same pixels in other contexts (judged by the same per-pixel rule): reversed with every pixel doubled,
+        // and as many tiny images of 1..7 pixels
+        let ck = a / chunk;
+        if ck % 3 == 1 {
+            let m = px.len().min(8192);
+            let mut v = Vec::with_capacity(2 * m);
+            let mut k = Vec::with_capacity(2 * m);
+            for i in (0..m).rev() {
+                v.push(px[i]);
+                v.push(px[i]);
+                k.push(kinds[i]);
+                k.push(kinds[i]);
+            }
+            process(&v, &k, false);
+        } else if ck % 3 == 2 {
+            let mut i = 0usize;
+            let mut len = 1usize;
+            while i + len <= px.len().min(2048) {
+                process(&px[i..i + len], &kinds[i..i + len], false);
+                i += len;
+                len = len % 7 + 1;
+            }
+        }
     });
     let w = worst.lock().unwrap();
     let tol = if roundtrip { TOL_C05 } else { TOL_C04 };
